@@ -26,7 +26,7 @@ use tokio::net::{TcpListener, TcpStream};
 use tokio::sync::{mpsc, oneshot};
 
 /// Upper bound of every wait for an expected observable.
-pub const WAIT: Duration = Duration::from_secs(10);
+pub const WAIT: Duration = Duration::from_secs(5);
 
 /// What handlers and the middleware report to the harness (in program order of one
 /// current-thread runtime, so the order of these events is the logical order of the run).
